@@ -5,7 +5,9 @@ Real code: api.transfer_model twice on a scratch folder with cache=True: the fir
 outputs, delay states and the alias relation are compared concretely; z3 proves the four Functions
 of the CachedModel equal to those of the fresh Model for ALL inputs and every parameter-dependent
 attribute equal for ALL parameter values.  codegen=True (thorough): names / metadata / attributes
-only - numeric agreement of the compiled C behind ca.external is outside the claim.
+only - numeric agreement of the compiled C behind ca.external is outside the claim (parameter-
+dependent attributes of a code-generated model are calls into that C code; they are compared
+numerically at three parameter points as a fallback, not by the solver).
 
 Besides seven hand-written models the family contains three GENERATED classes (see the generator
 functions below), each aimed at one region of save_model / load_model:
@@ -322,6 +324,21 @@ def attr_term(val, psyms, pnames, div, numel):
     return t
 
 
+def numeric_attr_mismatch(a, b, pf, pc, numel):
+    """None, or (point, fresh values, cached values) where the two attribute values differ numerically."""
+    npar = int(sum(s.numel() for s in pf))
+    for j in range(3):
+        pt = [0.7 + 0.9 * j + 0.31 * i for i in range(npar)]
+        vals = []
+        for val, ps in ((a, pf), (b, pc)):
+            v = ca.Function("a", [ca.veccat(*ps)], [ca.MX(val) if isinstance(val, ca.MX) else ca.MX(ca.DM(val))])(ca.DM(pt))
+            v = [float(x) for x in np.array(ca.densify(ca.DM(v))).flatten(order="F")]
+            vals.append(v * numel if len(v) == 1 and numel > 1 else v)
+        if len(vals[0]) != len(vals[1]) or any(not equiv.close(x, y) for x, y in zip(*vals)):
+            return pt, vals[0], vals[1]
+    return None
+
+
 def compare(col, case, text, fresh, cached, codegen):
     cats = ["states", "der_states", "alg_states", "inputs", "parameters", "constants"]
     for cat in cats:
@@ -363,6 +380,14 @@ def compare(col, case, text, fresh, cached, codegen):
             for attr in ATTRS:
                 a, b = getattr(vf, attr), getattr(vc, attr)
                 n = vf.symbol.numel()
+                if codegen and (isinstance(a, ca.MX) or isinstance(b, ca.MX)):
+                    # the cached attribute is a call into compiled C (ca.external): nothing to encode.
+                    # Fallback outside the solver claim: compare numerically at three parameter points.
+                    bad = numeric_attr_mismatch(a, b, pf, pc, n)
+                    col.bump("codegen_attributes_compared_numerically")
+                    if bad:
+                        col.violation(f"{case}:{vf.symbol.name()}.{attr}:numeric", f"attribute differs at parameters {bad[0]}: fresh {bad[1]} cached {bad[2]}", {"model_text": text})
+                    continue
                 ta, tb = attr_term(a, pf, pnames, div, n), attr_term(b, pc, pnames, div, n)
                 if not isinstance(a, ca.MX) and not isinstance(b, ca.MX):
                     # plain Python values are pickled: the cached one must have exactly the same type
@@ -540,7 +565,8 @@ def main():
         f"{n_gen['falsy']} generated falsy-value models = 9 String models (value abc/empty/unset/'0'/'false'/' ' for parameter and constant "
         "x fixed unset/true/false x start unset/''/'s') + 4 numeric models (0, 0.0, -0.0, 1 and false/true in value/min/max/start/"
         "nominal/fixed of Real/Integer/Boolean parameters, constants, states, algebraic variables, inputs) x 3 option sets (thorough 5); "
-        "all inputs/parameters unbounded reals; codegen (thorough only): names/metadata/attributes only, 3 hand-written + 8 generated models"
+        "all inputs/parameters unbounded reals; codegen (thorough only, 3 hand-written + 8 generated models): names / types / plain attribute "
+        "values concretely, parameter-dependent attributes numerically at 3 parameter points (compiled C cannot be encoded), functions not compared"
     )
     rep.assumptions += ["pickle / CasADi (de)serialisation executed for real, not modelled",
                         "the parser's sqlite text cache is private to each worker process (its concurrency is C02's subject)", "numeric agreement of code-generated shared libraries is outside the claim",
